@@ -79,6 +79,12 @@ func scenarioHostile(t *traceWriter, rng *rand.Rand) {
 		hcase{desc: "good.tiles-empty", cp: good, status: 200, tile: "empty"},
 		hcase{desc: "good.tiles-huge", cp: good, status: 200, tile: "huge"},
 		hcase{desc: "good.tiles-garbage", cp: good, status: 200, tile: "garbage"},
+		// no response at all: the connection is cut, the body ends before its declared length, nobody listens
+		hcase{desc: "reset.checkpoint", cp: good, status: -1, tile: "404"},
+		hcase{desc: "good.tiles-reset", cp: good, status: 200, tile: "reset"},
+		hcase{desc: "short.checkpoint", cp: good, status: -2, tile: "404"},
+		hcase{desc: "good.tiles-short", cp: good, status: 200, tile: "short"},
+		hcase{desc: "down", cp: good, status: -3, tile: "404"},
 	)
 	// hostile JSON: every shape a JSON decoder can hand to code that expected an object with string fields
 	goodQ := strings.ReplaceAll(strings.ReplaceAll(string(good), "\\", "\\\\"), "\n", "\\n")
@@ -125,8 +131,33 @@ func scenarioHostile(t *traceWriter, rng *rand.Rand) {
 				return
 			}
 			fd, c := feeders[j.fd], j.c
+			cut := func(w http.ResponseWriter) {
+				if hj, ok := w.(http.Hijacker); ok {
+					if conn, _, err := hj.Hijack(); err == nil {
+						conn.Close()
+					}
+				}
+			}
+			short := func(w http.ResponseWriter, b []byte) { // declares more than it sends, then the connection goes away
+				w.Header().Set("Content-Length", fmt.Sprint(len(b)+1000))
+				w.WriteHeader(200)
+				w.Write(b)
+				if f, ok := w.(http.Flusher); ok {
+					f.Flush()
+				}
+				cut(w)
+			}
 			srv := httptest.NewServer(http.HandlerFunc(func(w http.ResponseWriter, r *http.Request) {
 				p := r.URL.Path
+				isCP := strings.HasSuffix(p, "/latest") || strings.HasSuffix(p, "checkpoint.txt") || strings.HasSuffix(p, "/checkpoint") || strings.HasSuffix(p, "api/v1/log")
+				if isCP && c.status == -1 {
+					cut(w)
+					return
+				}
+				if isCP && c.status == -2 {
+					short(w, c.cp[:len(c.cp)/2])
+					return
+				}
 				switch {
 				case strings.HasSuffix(p, "/latest"), strings.HasSuffix(p, "checkpoint.txt"), strings.HasSuffix(p, "/checkpoint"):
 					w.WriteHeader(c.status)
@@ -151,11 +182,18 @@ func scenarioHostile(t *traceWriter, rng *rand.Rand) {
 						w.WriteHeader(200)
 					case "huge":
 						w.Write(make([]byte, 2<<20))
+					case "reset":
+						cut(w)
+					case "short":
+						short(w, make([]byte, 40))
 					default:
 						http.NotFound(w, r)
 					}
 				}
 			}))
+			if c.status == -3 {
+				srv.Close() // nobody listens at the configured address any more
+			}
 			u := srv.URL + "/"
 			if fd.name == "rekor" {
 				u = srv.URL + "/?treeID=7"
